@@ -377,6 +377,12 @@ func (c *Conc) generate(a AbsRel) (*rspb.Release, bool) {
 		size = c.large/2 + r.Intn(c.large/2)
 	}
 	rel.Manifest = fmt.Sprintf("---\n# Source: %s/templates/cm.yaml\napiVersion: v1\nkind: ConfigMap\nmetadata:\n  name: %s-%d-%d\ndata:\n", md.Name, name, a.Rev, a.V) + randText(r, size)
+	if r.Intn(120) == 0 {
+		// a release whose JSON form exceeds 1 MiB but compresses well (repetitive text): legal for the
+		// Kubernetes-backed drivers, whose size limit applies to the gzip'd record
+		line := "  k" + randSeg(r, 6) + ": \"" + randText(r, 80) + "\"\n"
+		rel.Manifest += strings.Repeat(line, (1200<<10+r.Intn(400<<10))/len(line))
+	}
 	if r.Intn(10) == 0 {
 		rel.Manifest = ""
 	}
